@@ -153,6 +153,26 @@ pub fn check_world(spec: &RichSpec, l: &mut Local) -> Result<(), String> {
                 // somebody else signs, bringing their own token accounts
                 let as_attacker = substitute_actor(w, &ent.ix, holder, r.attacker);
                 mutant("other_key_signing", w, &as_attacker, true, l)?;
+                // somebody else signs and brings the token of THEIR OWN position (bundle): right kind of token, wrong object
+                {
+                    let own_tokens: Vec<Pubkey> = match &ent.class {
+                        Class::Position(_) => vec![w.positions[r.att_pos_plain].token_account, w.positions[r.att_pos_te].token_account],
+                        _ => vec![w.bundles[r.att_bundle].token_account],
+                    };
+                    for own in own_tokens {
+                        let mut x = as_attacker.clone();
+                        let mut replaced = false;
+                        for m in x.accounts.iter_mut() {
+                            if m.pubkey == tok_account {
+                                m.pubkey = own;
+                                replaced = true;
+                            }
+                        }
+                        if replaced {
+                            mutant("other_key_signing_with_the_token_of_its_own_position", w, &x, true, l)?;
+                        }
+                    }
+                }
                 // delegates with amount 0 / 1 / 2
                 for n in [0u64, 1, 2] {
                     let mut wd = w.clone();
@@ -216,7 +236,8 @@ pub fn def() -> CheckDef {
         id: "C04",
         rule: "a generated world holding every kind of object (2 configs with extension and token badge, static and adaptive pools over SPL / Token-2022 mints, plain, \
                token-extension, locked, empty and bundled positions, rewards, owed fees); the complete table of privileged instructions (both dispatch paths) is \
-               enumerated on every world: baseline call must succeed, then mutants: right key without signature, another key signing with its own token accounts, \
+               enumerated on every world: baseline call must succeed, then mutants: right key without signature, another key signing with its own token accounts (and with the position / bundle token of its OWN position), \
+               an outsider signing while one program-owned account slot names a sibling object whose recorded authority the outsider is, \
                every other role's authority, delegate approved through the real token program with amount 0 / 1 / 2, position (bundle) token moved to another \
                holder (old holder must fail; new holder and 1-token delegate are positive controls).  Distinct non-trivial = (instruction, mutant kind, world).",
         assumptions: vec!["nsvm runtime as in DESIGN.md §5", "delegate/new-holder acceptance is only demanded for liquidity and collect instructions (others need the holder for unrelated reasons, e.g. closing the token account)"],
